@@ -6,6 +6,7 @@ The parser can be invoked standalone:
     python -m odml.tools.xmlparser file.odml
 """
 import csv
+import re
 import sys
 
 from os.path import basename
@@ -313,6 +314,11 @@ class XMLReader(object):
         :param string: XML string.
         :returns: a parsed odml.Document.
         """
+        if isinstance(string, str):
+            # lxml refuses unicode strings that carry an encoding declaration;
+            # for already decoded text the XML declaration has no meaning.
+            string = re.sub(r'^<\?xml[^>]*\?>', '', string, count=1)
+
         try:
             root = ET.XML(string, self.parser)
         except ET.XMLSyntaxError as exc:
